@@ -204,6 +204,9 @@ class Ctx:
         if e <= tol:
             if e > self.max_err.get(oracle, 0.0):
                 self.max_err[oracle] = e
+            # closest approach to the tolerance (fraction of it that was used): the margin against false alarms
+            if tol > 0 and e / tol > self.max_err.get(oracle + '/tol', 0.0):
+                self.max_err[oracle + '/tol'] = e / tol
             self.oracle_evals[oracle] += 1
             return True
         detail.setdefault('got', got)
